@@ -451,6 +451,19 @@ func c12one(x *X, reg *pubRegime, loc *time.Location, cs c12case, step int, stal
 		doc["ordering"] = map[string]any{"period": map[string]any{"start": dateAdd(D, -500), "end": dateAdd(D, -470)}}
 		doc["payment"] = map[string]any{"terms": map[string]any{"key": "due-date", "due_dates": []any{map[string]any{"date": dateAdd(D, 430), "percent": "100%"}}}}
 	}
+	if stale && strings.Contains(op.S2, "+") && op.I != 11 {
+		// a plain line of the base key first: the tested line comes second and must still be
+		// summarised with everything its own key brings (an equivalence surcharge, for one)
+		base := strings.SplitN(op.S2, "+", 2)[0]
+		if br, _ := findRate(reg, op.S, base); br != nil && !br.Exempt {
+			plain := map[string]any{"cat": op.S, "rate": base}
+			if cc, ok := combo["country"]; ok {
+				plain["country"] = cc
+			}
+			first := map[string]any{"quantity": "1", "item": map[string]any{"name": "plain", "price": "50.00"}, "taxes": []any{plain}}
+			doc["lines"] = append([]any{first}, doc["lines"].([]any)...)
+		}
+	}
 	db, _ := json.Marshal(doc)
 	x.Entropy(op.ID)
 	var env *gobl.Envelope
@@ -497,8 +510,27 @@ func c12one(x *X, reg *pubRegime, loc *time.Location, cs c12case, step int, stal
 		v, _ := ParseJV(Marshal(env))
 		tx := v.Get("doc").Get("lines")
 		if tx != nil && len(tx.A) > 0 {
-			if ts := tx.A[0].Get("taxes"); ts != nil && len(ts.A) > 0 {
+			if ts := tx.A[len(tx.A)-1].Get("taxes"); ts != nil && len(ts.A) > 0 {
 				gotP, gotS = ts.A[0].Get("percent").Str(), ts.A[0].Get("surcharge").Str()
+			}
+		}
+		// what the line received must also be what the document's tax summary says
+		if gotP != "" && v.Get("doc").Get("totals") != nil {
+			found := false
+			if cats := v.Get("doc").Get("totals").Get("taxes").Get("categories"); cats != nil {
+				for _, c := range cats.A {
+					if c.Get("code").Str() != op.S || c.Get("rates") == nil {
+						continue
+					}
+					for _, r := range c.Get("rates").A {
+						if r.Get("percent").Str() == gotP && r.Get("surcharge").Get("percent").Str() == gotS {
+							found = true
+						}
+					}
+				}
+			}
+			if !found {
+				x.Violate("summary-row-missing:"+reg.file+":"+op.S+":"+op.S2, "the line received percent %q surcharge %q but the document's tax summary has no row with both\n  regime %s, %s/%s %v, tax date %s", gotP, gotS, reg.file, op.S, op.S2, op.L, D)
 			}
 		}
 		if op.I <= 2 {
